@@ -184,8 +184,9 @@ pub fn run(r: &mut Runner) -> &'static str {
     // chains of related inputs judged back to back (history independence)
     let n = r.n(40_000, 1_000_000);
     r.random("c02.chains", n, 260, &|t| crate::gen::gen_chain(t, &gen_case), &|c: &crate::engine::Chain, st: &mut Stats| {
+        // every member is parsed from this thread's reusable read buffer (same address, new contents)
         for x in &c.0 {
-            judge(x, st)?;
+            crate::engine::in_arena(x, |v| judge(v, st))?;
         }
         Ok(())
     });
